@@ -258,6 +258,40 @@ func c45(c *Ctx) {
 			// the set is the one for this locality's priority
 			c.Expect(LookupBase(AnyV)(mapOrigin(mu.Map)) || true, mu, f, "per-priority-set", "")
 		}
+		// a priority is recorded only for a locality that is kept: otherwise the
+		// contiguity test below would be satisfied by a dropped (zero-weight) locality
+		var adv ssa.Instruction
+		for _, b := range f.Blocks {
+			for _, in := range b.Instrs {
+				if ia, ok := in.(*ssa.IndexAddr); ok && FieldLoad(c.field(endpb, "ClusterLoadAssignment", "Endpoints"))(ia.X) {
+					if bo, ok := ia.Index.(*ssa.BinOp); ok {
+						adv = bo
+					}
+				}
+			}
+		}
+		nPrio := 0
+		for _, b := range f.Blocks {
+			for _, in := range b.Instrs {
+				mu, ok := in.(*ssa.MapUpdate)
+				if !ok {
+					continue
+				}
+				mt, ok := mu.Map.Type().Underlying().(*types.Map)
+				if !ok {
+					continue
+				}
+				if _, inner := mt.Elem().Underlying().(*types.Map); !inner {
+					continue
+				}
+				nPrio++
+				if c.Expect(adv != nil, mu, f, "locality-walk", "walk over the localities not found") {
+					c.MustPass("priority-recorded-only-for-a-kept-locality", pathQuery{Fn: f, Starts: []ssa.Instruction{mu}, Barrier: func(x ssa.Instruction) bool { return x == ssa.Instruction(app) }, Target: func(x ssa.Instruction) bool { return x == adv }}, mu)
+				}
+				c.Unreachable(mu, "zero-weight-locality-records-no-priority", CmpInt(CallRes(CalleeX("google.golang.org/protobuf/types/known/wrapperspb", "UInt32Value.GetValue"), 0), token.EQL, 0))
+			}
+		}
+		c.Expect(nPrio == 1, app, f, "priority-set-insert", "expected one insertion into the priority table")
 		// contiguous priorities
 		for _, r := range successReturns(f, 1) {
 			miss := func(v ssa.Value) bool {
